@@ -169,7 +169,9 @@ impl Sched {
             Some("stall") => Some(3),
             _ => None,
         };
-        let drawn = rng.weighted(&[35, 20, 25, 20]);
+        // long runs (thousands of scheduling decisions) get the stall scheduler more often:
+        // "one worker falls far behind" needs room to happen
+        let drawn = if est_steps >= 3000 { rng.weighted(&[30, 15, 20, 35]) } else { rng.weighted(&[35, 20, 25, 20]) };
         match forced.unwrap_or(drawn) {
             0 => Sched {
                 kind: "random".into(),
